@@ -1,6 +1,6 @@
 SPECIFICATION Spec
 CONSTANTS
-  Sizes = {9, 17, 34, 70, 130, 260}
+  Sizes = {9, 17, 34, 130, 260}
   BigSizes = {520, 1030}
   ModelUpTo = 40
   Export = TRUE
